@@ -5,7 +5,7 @@ import math, re, struct
 from .core import dhex, hexd
 from .runner import Case
 
-GROUP = dict(name='text', sources=['h_text.cpp'], repo_sources=['util/Conventions.C', 'util/Pauli.C'], driver='text', libs=())
+GROUP = dict(name='text', sources=['h_text.cpp'], repo_sources=['util/Conventions.C', 'util/Pauli.C'], driver='text', libs=(), thread_mode=True)
 
 SV, SVAR, SIM = 777.5, 0.25, -3.25
 
